@@ -1,10 +1,60 @@
-(* C08 property theorems (statements only; proofs in Proofs_C08.v). *)
+(* C08 — numeric comparisons are mathematically correct for every int/float mix.
+   Property theorems only (proofs: Proofs_C08.v).  All of them are statements about
+   Model.eval_cmp / Model.compare_values, i.e. about the arm tables that translate/eval_arms.py
+   regenerated from the Rust source for this run (Gen_EvalArms.v): a source change that drops an
+   arm, swaps an operator token, or goes back to `as f64` makes these theorems fail to re-check.
+
+   num_val v      the real number an operand denotes (IZR for Int, B2R for Float)
+   finite_num v   v is an i64 or a finite binary64 (NaN / infinities are excluded: no real value)
+   R_rel r x y    x < y, x <= y, x > y, x >= y on the reals *)
+From Coq Require Import Reals.
+From Flocq Require Import Core IEEE754.BinarySingleNaN.
 From VP Require Import Base.Tactics Cmp.F64 Cmp.Arms Cmp.Gen_EvalArms Cmp.Model Cmp.Proofs_C08.
 
-(* Every ordering operator has an arm for every numeric operand-type pair, in both evaluators:
-   a comparison of two numbers always has a value. *)
+(* Every ordering operator has an arm for every numeric operand-type pair, in both evaluators
+   (eval_expr_with_functions and eval_binary_op): comparing two numbers always has a boolean value —
+   also for NaN and infinities. *)
 Theorem C08_total :
   forall (f : fn) (o : cop) (l r : value),
     In o [OLt; OLe; OGt; OGe] -> In (ty_of l) [TInt; TFloat] -> In (ty_of r) [TInt; TFloat] ->
     exists b, eval_cmp f o l r = Some (VBool b).
 Proof. exact total_lemma. Qed.
+
+(* For finite operands of any int/float mix, each of < <= > >= in both evaluators returns exactly
+   the order of the operands' real values. *)
+Theorem C08_order :
+  forall (f : fn) (o : cop) (r : rel) (a b : value),
+    rel_of_cop o = Some r -> finite_num a -> finite_num b ->
+    exists t, eval_cmp f o a b = Some (VBool t) /\ (t = true <-> R_rel r (num_val a) (num_val b)).
+Proof. exact order_prop_lemma. Qed.
+
+(* The same for the SASE predicate comparison used by sequence-step filters (compare_values). *)
+Theorem C08_order_sase :
+  forall (o : cop) (r : rel) (a b : value),
+    rel_of_cop o = Some r -> finite_num a -> finite_num b ->
+    (compare_values a b o = true <-> R_rel r (num_val a) (num_val b)).
+Proof.
+  intros o r a b Hr Fa Fb. rewrite (order_sase_lemma o r a b Hr Fa Fb). apply rel_test_spec.
+Qed.
+
+(* a >= b holds exactly when a > b or the values are numerically equal *)
+Theorem C08_ge_iff :
+  forall (f : fn) (a b : value), finite_num a -> finite_num b ->
+    (eval_cmp f OGe a b = Some (VBool true) <->
+     eval_cmp f OGt a b = Some (VBool true) \/ num_val a = num_val b).
+Proof. exact ge_iff_lemma. Qed.
+
+(* The helper all mixed arms go through is the exact order of the integer and the float. *)
+Theorem C08_cmp_int_float_exact :
+  forall (i : Z) (x : f64), is_finite x = true -> (- 2 ^ 63 <= i < 2 ^ 63)%Z ->
+    cmp_int_float i x = Some (Rcompare (IZR i) (B2R x)).
+Proof. exact cmp_int_float_correct. Qed.
+
+(* The hypotheses are satisfiable by the shapes the property names: 31.5 vs 30, and 2^53+1 vs 2^53 *)
+Example C08_hyp_example :
+  finite_num (VFloat (of_bits 4629559679448514560)) /\ finite_num (VInt 30) /\
+  finite_num (VInt 9007199254740993) /\ finite_num (VFloat (of_bits 4845873199050653696)) /\
+  eval_cmp FExpr OGe (VFloat (of_bits 4629559679448514560)) (VInt 30) = Some (VBool true) /\
+  eval_cmp FBinop OGt (VInt 9007199254740993) (VFloat (of_bits 4845873199050653696)) = Some (VBool true) /\
+  compare_values (VInt 9007199254740993) (VFloat (of_bits 4845873199050653696)) OLe = false.
+Proof. repeat split; try (cbn; lia); vm_compute; reflexivity. Qed.
